@@ -816,7 +816,7 @@ fn parse_inner_type(tokens: &mut Tokens) -> Result<ValueType, Error>
 					element_type: Box::new(element_type),
 				})
 			}
-			Some(Token::NakedDecimal(x)) =>
+			Some(Token::NakedDecimal(x)) if usize::try_from(*x).is_ok() =>
 			{
 				let length = *x as usize;
 				tokens.pop_front();
